@@ -123,8 +123,8 @@ Fixpoint check_flushes (sns : list snapshot) (fs : list flushobs) : bool :=
 (* register futures bound by measurements (at any depth) in each flush block *)
 Fixpoint regs_stmt (s : stmt) : list nat :=
   match s with
-  | SMeasReg _ _ r => [r]
-  | SIf _ _ _ _ b | SLoop _ _ _ _ _ b | SForeach _ _ _ b | SEpr _ b => regs_block b
+  | SMeasReg _ _ r | SNewReg r _ => [r]
+  | SIf _ _ _ _ b | SLoop _ _ _ _ _ _ b | SForeach _ _ _ b | SEpr _ b => regs_block b
   | SLoopUntil _ _ b _ _ cl => regs_block b ++ regs_block cl
   | _ => []
   end
